@@ -43,8 +43,8 @@ CHECKS = {
          "Every sequence up to the depth bound by three actors with amounts {1, 2^63, 2^64-1, balance, balance+1, fill-to-max(+1)}: must-reject rules (authority, overflow, insufficient balance), every queried balance/supply/metadata/owner equals the exact model, sum of balances = supply from queries and from the raw store, generated ids never reused.",
          "DESIGN.md §3 C15"),
  "C20": ("exploration",
-         "exhaustive enumeration over all .proto files / descriptors of both generated families linked into one binary, and over a descriptor-driven bounded value space per message (round trips in both directions)",
-         "All 55 proto files, 318 messages, 22 services: inventory in both registries, structural descriptor comparison incl. options (file-level generator options aside), 6.7k cross-family encode/decode/re-encode round trips, and for every Msg request type: registered as sdk.Msg, signer option names an existing string field from which a signer address can be extracted.",
+         "exhaustive enumeration over all .proto files / descriptors of both generated families linked into one binary, and over a descriptor-driven bounded value space per message (round trips in both directions); every generated client stub method of both families called once on a recording connection",
+         "All 55 proto files, 318 messages, 22 services: inventory in both registries, structural descriptor comparison incl. options (file-level generator options aside), 6.7k cross-family encode/decode/re-encode round trips, and for every Msg request type: registered as sdk.Msg, signer option names an existing string field from which a signer address can be extracted; all 240 client stub methods ask for the route /<service>/<method> of their own service.",
          "DESIGN.md §3 C20"),
  "C09": ("model_checking",
          "explicit-state exhaustive search over issue/edit/mint/burn/transfer-owner sequences by owner and stranger on the real token keeper (13 explorations: identity collisions, cap at scales 0/1/18, 9 fee-parameter sets), exact big-integer supply/burn reference compared through every query",
@@ -75,20 +75,20 @@ CHECKS = {
          "Every sequence up to the depth bound over six fixtures (max/min/avg value sets with 3 providers, history shrink/grow, lifecycle with two feeds and funds draining, creation): each completed batch meeting its threshold appends exactly the configured aggregate (8 decimals) stamped with the block time, below threshold nothing; the list stays newest-first and within latest-history across edits; the feed state index always equals the service context state; only the creator starts, pauses or edits.",
          "DESIGN.md §3 C17"),
  "C10": ("model_checking",
-         "exhaustive enumeration of LossLessSwap over all scale pairs 0..18 x an input lattice x 8 ratios against exact rational arithmetic, plus explicit-state exhaustive search over ERC20 conversions (both directions, swap-to-native hook) with a store-backed fault-injecting EVM (<= 1 fault per conversion) and fee-token swaps at three ratios on the real token keeper",
+         "exhaustive enumeration of LossLessSwap over all scale pairs 0..18 x an input lattice x 8 ratios against exact rational arithmetic, plus explicit-state exhaustive search over ERC20 conversions (both directions, by min unit and by symbol, swap-to-native hook, ERC20 switch off/on, restart from exported genesis) with a store-backed fault-injecting EVM (<= 1 fault per conversion) and fee-token swaps at three ratios on the real token keeper",
          "Kernel: 0 <= burned <= offered, minted*10^s_in <= burned*ratio*10^s_out, equality and unconvertible dust at ratio 1. Search: every conversion moves exactly the amount on both ledgers and keeps native+ERC20 supply constant; any failure (insufficient balance, blocked receiver, injected EVM call error / VM failure / wrong credited amount / balanceOf error) leaves both ledgers unchanged; fee swaps never burn more than offered, never mint more than worth, supplies move by exactly burned/minted, module account empty.",
          "DESIGN.md §3 C10"),
  "C12": ("model_checking",
-         "explicit-state exhaustive search with 13 module drivers (record, coinswap, farm x2, htlc x2, token, nft, mt x2, service, oracle x2) wrapped by a genesis round-trip oracle evaluated in every reached state at the block boundary: export -> module's own validation -> InitGenesis on a second application instance with emptied stores -> export again (byte fixpoint) -> first begin-block -> query comparison on the original object ids; second variant after the modules' prepare-for-zero-height step",
+         "explicit-state exhaustive search with 15 module drivers (record, coinswap, farm x3, htlc x2, token, nft, mt x2, service, random, oracle x2; governance parameter changes offered as operations) wrapped by a genesis round-trip oracle evaluated in every reached state at the block boundary: export -> module's own validation -> InitGenesis on a second application instance with emptied stores -> export again (byte fixpoint) -> first begin-block -> query comparison on the original object ids; second variant after the modules' prepare-for-zero-height step, with a census of durable objects before/after that step",
          "In every reachable state of the drivers (bounded depth): the exported genesis (auth, bank and the module's) passes the module's ValidateGenesis, InitGenesis does not panic, the second export equals the first, and pools / stakes and pending rewards / open HTLCs and asset supplies / tokens and burn tallies / NFT classes, collections, owners, supply / MT classes, tokens, balances / service definitions, bindings, contexts, earned fees / feeds with their values / records by original id answer identically after re-import.",
          "DESIGN.md §3 C12"),
  "C18": ("model_checking",
-         "exhaustive enumeration of the PRNG over a lattice of block hashes, times, requesters and seeds, plus explicit-state exhaustive search over request (plain and oracle-seeded, intervals 1..3, two requesters)/respond (valid, malformed, error)/block sequences on the real random+service keepers with a pending-set reference model compared through the queries in every state",
+         "exhaustive enumeration of the PRNG over a lattice of block hashes, times, requesters and seeds in two evaluation orders, plus explicit-state exhaustive search over request (plain and oracle-seeded, intervals 0..3, two requesters, chains starting at height 1 and 253)/respond (valid, malformed, error)/block sequences on the real random+service keepers with a pending-set reference model compared through the queries in every state",
          "Kernel: result in [0,1) with exactly 20 fractional digits, a function of its inputs only. Search: each request is fulfilled exactly once in the begin-block following height h+n (oracle requests when the seed arrives, never on a malformed seed or timeout), is absent from the pending queue afterwards, the stored number equals the PRNG of (previous app hash, block time, requester, seed) and reads back unchanged in every later state; several requests due at one height from two requesters and from one requester in different blocks are covered.",
          "DESIGN.md §3 C18"),
  "C11": ("model_checking",
-         "explicit-state exhaustive search with 16 module drivers in which every transition is re-executed from the same pre-state on fresh application instances (state transplanted key by key = restart / other node) under deviating host clocks (+-7 min, +400 days, clock = block time) and map iteration orders (runtime seeds 1..7), both controlled through a build-time overlay of GOROOT's time and runtime packages; whole-application state hash, transaction result and exported genesis compared byte for byte",
-         "Every transition of every driver up to the (reduced) depth bound: the warm search instance under the baseline environment and cold replicas under deviating environments must agree on the result class and on every KV store of the application; in every reached state the exported genesis of bank and the driver's modules must be identical under every map seed and clock offset. One search worker per process (seams are process-global), one process per driver.",
+         "explicit-state exhaustive search with 20 module drivers in which every transition is re-executed from the same pre-state on fresh application instances (state transplanted key by key = restart / other node) under deviating host clocks (+-7 min, +400 days, clock = block time) and map iteration orders (runtime seeds 1..7), both controlled through a build-time overlay of GOROOT's time and runtime packages; whole-application state hash, transaction result and exported genesis compared byte for byte; plus cross-process replicas: the enumerated op paths of every driver (length <= 4, first 1500) executed in three operating-system processes, one of them walking siblings in reverse order, digests of all stores and exports compared path by path",
+         "Every transition of every driver up to the (reduced) depth bound: the warm search instance under the baseline environment and cold replicas under deviating environments must agree on the result class and on every KV store of the application; in every reached state the exported genesis of bank and the driver's modules must be identical under every map seed and clock offset. One search worker per process (seams are process-global), one process per driver. Across processes: the same history leads to the same stores and exported genesis whatever the process drew for itself (maphash seeds, start time) and whatever other paths it executed before.",
          "DESIGN.md §3 C11"),
 }
 NOT_YET = "check not built yet in this phase of the work (see DESIGN.md §6 change log); not claimed"
